@@ -53,6 +53,41 @@ CHECKS = {
     rule="(finite raw x, count in [INT_MIN,63]) for both shifts, a quarter of the cases straddling the range limit; pairs of raw values for &; non-trivial = negative count, count in {0,62,63}, negative x, x*2^r out of range, negative & operand",
     clauses=[rc('C18.shift', 600000, 60000000), rc('C18.and', 300000, 30000000)],
     floors={'C18.shift': {'negative-count': 0.1, 'shl-out-of-range': 0.1}}),
+
+ 'C09': dict(
+    rule="every raw x in [-2pi, 2pi] for sin and cos against long-double libm with the property's own bound, plus generated (x,k) for exact periodicity; non-trivial = r > 1.2, |x| > pi/2, k != 0",
+    clauses=[sweep('C09.acc'), rc('C09.period', 2000000, 100000000)],
+    floors={'C09.period': {'|k|>4': 0.5}}),
+ 'C10': dict(
+    rule="every raw x in [-pi, pi] for tan against long-double libm, plus generated x up to 62 bits for oddness, period and the pole set; non-trivial = reciprocal branch, beyond pi/2, near a pole, reduction executed",
+    clauses=[sweep('C10.acc'), rc('C10.rel', 2000000, 100000000)],
+    floors={'C10.rel': {'at-pole': 0.05, 'reduction-executed': 0.15}}),
+ 'C11': dict(
+    rule="atan: exhaustive low range + lattice per bit length to 47 + segment boundaries; generated ordered pairs for monotonicity; generated (y,x) with independent bit lengths for atan2; non-trivial = |x| > 39/16, segment boundaries, |raw| >= 2^29, adjacent pairs, axis cases, |log2|y/x|| > 13",
+    clauses=[sweep('C11.atan'), rc('C11.mono', 1000000, 50000000), rc('C11.atan2', 1000000, 50000000)],
+    floors={'C11.atan2': {'axis': 0.05, '|log2|y/x||>13': 0.3}}),
+ 'C12': dict(
+    rule="every raw x in [-1, 1] under both square-root algorithms, plus generated x outside; non-trivial = |x| > 0.6, |x| > 0.99, at the switch, just outside or huge",
+    clauses=[sweep('C12.in'), rc('C12.out', 300000, 20000000)], floors={}),
+ 'C13': dict(
+    rule="sqrt through sqrt(), detail::sqrt_abacus and detail::sqrt_std_math: exhaustive low range, lattice per bit length to 47, perfect squares, generated negatives; integer-only oracle; non-trivial = raw >= 2^22, top binade, negative",
+    clauses=[sweep('C13.sqrt'), rc('C13.sqrtrc', 500000, 30000000)], floors={'C13.sqrtrc': {'top-binade[2^46,2^47)': 0.01, 'negative': 0.05}}),
+ 'C14': dict(
+    rule="generated pairs (a,b) below 2^47 with planted normalisation thresholds, under both square-root algorithms; non-trivial = max >= 2^29, min < 2^16, threshold +- 8",
+    clauses=[rc('C14.hypot', 1500000, 80000000)],
+    floors={'C14.hypot': {'branch:hi>=2^30(shift-right)': 0.15, 'branch:lo<2^16(shift-left)': 0.15, 'branch:direct': 0.10, 'threshold+-8': 0.03}}),
+ 'C19': dict(
+    rule="all table entries; int32 degrees (generated + enumerated) for the *_angle_aprox functions; sqrt_aprox and atan_index_aprox over exhaustive low ranges, lattices and table-entry neighbourhoods; non-trivial = negative / > 360 degrees, binade edges, large arguments, every table entry",
+    clauses=[sweep('C19.tables'), rc('C19.angle', 500000, 20000000), sweep('C19.anglesweep'), sweep('C19.sqrt_aprox'), sweep('C19.atan_index')], floors={'C19.angle': {'negative-degrees': 0.2}}),
+ 'C20': dict(
+    rule="angle_to_radians<T> generated and enumerated per integral type; sin/cos/tan_angle for every integer d in [-360,360] and every argument type able to carry d; non-trivial = outside [0,360], 8-bit types beyond 104, negative d, d in (135,180) u (315,360)",
+    clauses=[rc('C20.a2r', 300000, 20000000), sweep('C20.a2rsweep'), sweep('C20.angle')], floors={'C20.a2r': {'outside[0,360]->NaN': 0.2}}),
+ 'C07': dict(
+    rule="(entry point, arguments) over the whole inventory on sanitized builds with harness-owned UBSan handlers, the libstdc++ assertion hook and signal recovery; identity of a finding = (kind, file, line)",
+    clauses=[rc('C07.entry', 3000000, 100000000, family='S'), rc('C07.trap', 1000000, 50000000, family='R')], floors={'C07.entry': {'@nontrivial': 0.4}}),
+ 'C08': dict(
+    rule="(entry point, in-domain arguments) over the whole inventory, bit-identical results across all build configurations (same sqrt algorithm group)",
+    clauses=[rc('C08.diff', 2000000, 50000000)], floors={}),
 }
 
 def setup_extra(env):
